@@ -130,6 +130,7 @@ def step (x : S) (ws : List String) : Option (S × String × List String) :=
           | none => rej x "?"
         | none => rej x "?"
       | none => rej x "?"
+    else if pc == .checked then rej x "the Send call ended while still holding sendingMu (write)"
     else act x (.sdone a) "Send returned before its pongs were consumed"
   | ["sendret", s, ret] => do
     let ret ← kv ret "ret"
